@@ -124,14 +124,14 @@ def claimed_promise(ctx, db, rid):
 # (coro_queue = the per-thread ready queue and the coroutine-mode discipline of C05: every feature that resumes waiting coroutines does it
 #  through coro_queue::resume / a suspend point flushed into it, or installs a queue itself)
 BUILT_ON = {
-    'C01': ('awaiter',), 'C02': ('future',), 'C03': ('future', 'awaiter'),
-    'C04': ('future', 'awaiter', 'suspend_point', 'coro_queue', 'storage'), 'C05': ('suspend_point',), 'C06': ('coro_queue',),
+    'C01': ('awaiter',), 'C02': ('future', 'suspend_point', 'coro_queue'), 'C03': ('future', 'awaiter'),
+    'C04': ('future', 'awaiter', 'suspend_point', 'coro_queue', 'storage'), 'C05': ('suspend_point', 'awaiter'), 'C06': ('coro_queue',),
     'C07': ('awaiter', 'suspend_point', 'coro_queue'), 'C08': ('awaiter', 'suspend_point', 'coro_queue'),
     'C09': ('future', 'awaiter', 'suspend_point', 'coro_queue'), 'C10': ('future', 'awaiter', 'suspend_point', 'coro_queue', 'queue'),
     'C11': ('future', 'awaiter', 'suspend_point', 'coro_queue', 'async'), 'C12': ('future', 'awaiter', 'suspend_point', 'coro_queue', 'generator', 'async'),
     'C13': ('future', 'awaiter', 'suspend_point', 'coro_queue'), 'C14': ('future', 'awaiter', 'suspend_point', 'generator', 'queue', 'coro_queue'),
     'C15': ('awaiter', 'suspend_point'), 'C16': ('awaiter', 'suspend_point'),
-    'C17': ('future', 'awaiter', 'suspend_point'), 'C18': ('future', 'awaiter', 'suspend_point'),
+    'C17': ('future', 'awaiter', 'suspend_point'), 'C18': ('future', 'awaiter', 'suspend_point', 'storage'),
 }
 
 
